@@ -22,4 +22,33 @@ CLAIMS = {
                 "no explicit reinsert labels. Not modelled: sparse input, global clustering, width change between fits with equal byte length.",
         "technique": "Lean 4 theorem over executable model + differential correspondence",
     },
+    "C02": {
+        "text": "Theorem C02_exact: every reported cluster (sorted or leaf order) satisfies Exact D: count = number of labels, per-bit sums "
+                "= column sums of exactly those members, centroid = majority vote with ties set, width = narrowest holding the count; "
+                "C02_no_wrap_merge / _update: width-limited NumPy arithmetic equals unbounded arithmetic on exact summaries at every width "
+                "(255/256, 65535/65536, 2^32-1/2^32); C02_majority, C02_aligned, C02_narrowest. Correspondence compares stored sums, counts, "
+                "dtypes and centroids of every leaf sub-cluster with the model after every operation.",
+        "note": TB + "Hypothesis: the history is consistent with a labelling D (fit rows are what D says, refine gets the fitted rows), reset-free "
+                "segment. Counts >= 2^64 (where min_safe_uint raises) are modelled as a rejected merge; unreachable. The float comparison "
+                "`ls >= n*0.5` is modelled as 2k >= n (exact for n < 2^53).",
+        "technique": "Lean 4 theorem over executable model + differential correspondence",
+    },
+    "C03": {
+        "text": "Theorem C03_threshold: every reported cluster with >= 2 members satisfies stat(criterion) >= threshold for a configuration "
+                "in force at some insertion of the history (inForce), where stat is the library's own float formula (iSIM / radius "
+                "complement, transcribed with its rounding points); C03_never: with never-merge in force every cluster is a singleton; "
+                "C03_accept_sound. The oracle recomputes the statistic with bblean's functions from the input rows.",
+        "note": TB + "The bound is about the library's computed float statistic (C11 relates it to the exact rational). inForce lists "
+                "configurations since the start of the history, not only since the last reset.",
+        "technique": "Lean 4 theorem over executable model + differential correspondence",
+    },
+    "C09": {
+        "text": "Theorems C09_recluster / C09_refine: from every reachable state, each cluster (for refine: each cluster outside the n "
+                "largest in report order) is contained in one cluster after the operation, for all iteration counts, increments, shuffles, "
+                "n_largest; C09_units: the general merge-closure fact (also the basis for the multi-round rounds). Oracle: containment "
+                "check between consecutive reports on the real estimator.",
+        "note": TB + "The multi-round clause of C09 is covered by C09_units only at the level of one batch re-insertion; the round-file protocol "
+                "is part of C05/C06 (not claimed yet).",
+        "technique": "Lean 4 theorem over executable model + differential correspondence",
+    },
 }
